@@ -246,6 +246,7 @@ class DocOpts:
         self.p_sub_repeat = 0.15
         self.p_repeat_outer = 0.3
         self.p_hetero = 0.5
+        self.p_nested_var = 0.25
         self.__dict__.update(kw)
 
 
@@ -328,7 +329,35 @@ class DocGen:
     def gen_arg_value(self, a_type, has_default, scope):
         if self.rng.random() < self.o.p_var:
             return self.var_for(a_type, has_default, scope)
-        return values.gen_literal(self.rng, self.s, a_type, None, 1)
+        lit = values.gen_literal(self.rng, self.s, a_type, None, 1)
+        if self.rng.random() < self.o.p_nested_var:
+            lit = self.nest_variable(a_type, lit, scope)
+        return lit
+
+    def nest_variable(self, t, lit, scope):
+        """Replace one element of a list literal / one field of an object literal by a (correctly typed) variable."""
+        rng = self.rng
+        tt = t[1] if t[0] == "NN" else t
+        if lit[0] == "list" and tt[0] == "L" and lit[1]:
+            i = rng.randrange(len(lit[1]))
+            items = list(lit[1])
+            if rng.random() < 0.6 or items[i][0] not in ("list", "object"):
+                items[i] = self.var_for(tt[1], False, scope)
+            else:
+                items[i] = self.nest_variable(tt[1], items[i], scope)
+            return ("list", items)
+        td = self.s.types.get(tt[1]) if tt[0] == "N" else None
+        if lit[0] == "object" and td is not None and td.kind == "INPUT_OBJECT" and lit[1]:
+            i = rng.randrange(len(lit[1]))
+            fields = list(lit[1])
+            k, v = fields[i]
+            f = td.field(k)
+            if rng.random() < 0.6 or v[0] not in ("list", "object"):
+                fields[i] = (k, self.var_for(f.type, f.default is not NODEF, scope))
+            else:
+                fields[i] = (k, self.nest_variable(f.type, v, scope))
+            return ("object", fields)
+        return lit
 
     def gen_args(self, argdefs, scope):
         out = []
